@@ -102,7 +102,12 @@ func c09Fold(fn string, vs []ref.Val) ref.Val {
 	case "min", "max":
 		best := vs[0]
 		for _, v := range vs[1:] {
-			if (fn == "min" && v.Num() < best.Num()) || (fn == "max" && v.Num() > best.Num()) {
+			less, greater := v.Num() < best.Num(), v.Num() > best.Num()
+			if v.K == 'I' && best.K == 'I' {
+				// integers are ordered exactly (not through their float64 image)
+				less, greater = v.I < best.I, v.I > best.I
+			}
+			if (fn == "min" && less) || (fn == "max" && greater) {
 				best = v
 			}
 		}
@@ -215,6 +220,8 @@ var c09Universes = []c09Universe{
 	{"text", []string{"a", "ab", "abc", "b", "bc"}, []string{"bc", "c", "1"}, ""},
 	{"int", []string{"a", "a1", "b", "b1"}, []string{"1", "2", "12", "-3"}, "int"},
 	{"float", []string{"a", "a1", "b", "b1"}, []string{"0.5", "0.75", "2.5", "-0.5"}, "float"},
+	// integers beyond 2^53: neighbours share one float64 image
+	{"bigint", []string{"a", "a1", "b", "b1"}, []string{"9007199254740993", "9007199254740992", "9007199254740994", "-9007199254740993"}, "int"},
 }
 
 func c09Stores(u c09Universe, maxPairs int) [][]store.Pair {
